@@ -270,7 +270,7 @@ class Categorize(Factory, Container):
         subweights = weights.copy()
         subweights[weights < 0.0] = 0.0
 
-        if self.n_dim == 1 and all_weights_one and isinstance(self.value, Count):
+        if self.n_dim == 1 and all_weights_one and isinstance(self.value, Count) and self.value.transform is identity:
             # special case of filling single array where all weights are 1
             uniques, counts = np.unique(q, return_counts=True)
 
